@@ -73,3 +73,19 @@ func IDs() []string {
 	sort.Strings(ids)
 	return ids
 }
+
+// Link makes the named rules of property `source` obligations of property `target` as well (the design's
+// "re-uses"): the source's rule table is run on the same program and the selected findings are imported under
+// the ids "<source>.<rule>".
+func Link(target, source, decides string, rules []string, mutants ...Mutant) {
+	Extend(target, decides, func(c *rt.Ctx) {
+		src := all[source]
+		if src == nil {
+			c.Rule(source+".link", 1, func() { c.Bail("linked property %s is not registered", source) })
+			return
+		}
+		sub := &rt.Ctx{P: c.P, Prop: source, Tier: c.Tier}
+		Get(source).Run(sub)
+		c.Import(sub, source, rules...)
+	}, mutants...)
+}
